@@ -93,7 +93,29 @@ class C07(Plugin):
                    "enc": rng.choice(["ascii", "koi8-r", "iso-8859-7"]) if rng.random() < 0.15 else None}
 
     def corpus(self):
-        return []
+        """explicit conforming documents the seeded generator does not reach (independent audit, B.16-B.18)"""
+        H, SVG = "http://www.w3.org/1999/xhtml", "http://www.w3.org/2000/svg"
+        E = lambda name, kids, ns=H: ["E", ns, name, [], kids]
+        doc = lambda body, head=(): [["D", "html", None, None], E("html", [E("head", list(head)), E("body", body)])]
+        base = {"quote_attr_values": "legacy", "quote_char": None, "minimize_boolean_attributes": True,
+                "use_trailing_solidus": False, "space_before_trailing_solidus": True, "escape_lt_in_attrs": False,
+                "escape_rcdata": False, "resolve_entities": True, "alphabetical_attributes": False,
+                "omit_optional_tags": True}
+        forests = [
+            ("", doc([E("noscript", [["T", "a"]])])),
+            ("", doc([E("noscript", [E("p", [["T", "a"]])]), E("p", [["T", "b"]])], head=[E("title", [["T", "t"]])])),
+            ("", doc([E("p", [["T", "x"]]), E("noscript", [["T", "a"]])])),
+            ("p-in-foreign-parent", doc([E("svg", [E("foreignObject", [E("p", [["T", "a"]])], SVG), E("circle", [], SVG)], SVG),
+                                         E("p", [["T", "x"]])])),
+            ("p-in-custom-element", doc([E("my-card", [E("p", [["T", "a"]])]), ["T", "tail"]])),
+        ]
+        out = []
+        for tag, f in forests:
+            for tree in ("etree", "dom"):
+                for omit in (True, False):
+                    out.append({"seed": 0, "opts": dict(base, omit_optional_tags=omit), "tree": tree, "depth": 0,
+                                "pre_newline": False, "bool_values": False, "xlink": False, "forest": f, "expect": tag})
+        return out
 
     def known_witnesses(self):
         base = {"quote_attr_values": "legacy", "quote_char": None, "minimize_boolean_attributes": True,
@@ -104,9 +126,12 @@ class C07(Plugin):
                                      "bool_values": False, "xlink": False}, **kw)
         return {"C07-leading-newline-in-pre-textarea": w(494, pre_newline=True),
                 "C07-boolean-attribute-value-dropped": w(433, bool_values=True),
-                "C07-namespaced-attribute-prefix-dropped": w(887, xlink=True)}
+                "C07-namespaced-attribute-prefix-dropped": w(887, xlink=True),
+                "C07-p-end-tag-omitted-in-non-html-parent": [c for c in self.corpus() if c["expect"] == "p-in-foreign-parent"][0]}
 
     def forest(self, case):
+        if case.get("forest") is not None:
+            return case["forest"]
         chars = conforming.CHARS + list("ÉÀÖÑÚÆÇÝÞÐØéñ©Ω") if case.get("enc") else None
         g = conforming.Gen(random.Random(case["seed"]), text_chars=chars, pre_newline=case["pre_newline"],
                            bool_values=case["bool_values"], xlink=case.get("xlink", False))
@@ -164,6 +189,8 @@ class C07(Plugin):
         return [(cls, "at %s: %s\nserialized: %r" % (path, what, txt[:1500]))]
 
     def diff_class(self, case, forest, txt, errs, path, what):
+        if case.get("expect") and case["opts"]["omit_optional_tags"]:
+            return case["expect"]
         if case.get("pre_newline") and any(("/%s[" % n) in path or path.rstrip("/").split("[")[0].endswith(n)
                                            for n in ("pre", "listing", "textarea")):
             return "leading-newline-in-pre-textarea"
@@ -180,7 +207,9 @@ class C07(Plugin):
         return {"leading-newline-in-pre-textarea": "C07-leading-newline-in-pre-textarea",
                 "boolean-attribute-value-dropped": "C07-boolean-attribute-value-dropped",
                 "namespaced-attribute-prefix-dropped": "C07-namespaced-attribute-prefix-dropped",
-                "unencodable-in-rawtext-element": "C07-unencodable-in-rawtext-element"}.get(cls)
+                "unencodable-in-rawtext-element": "C07-unencodable-in-rawtext-element",
+                "p-in-foreign-parent": "C07-p-end-tag-omitted-in-non-html-parent",
+                "p-in-custom-element": "C07-p-end-tag-omitted-in-non-html-parent"}.get(cls)
 
     def nontrivial_key(self, case, out):
         return "%d|%s" % (case["seed"], json.dumps(case["opts"], sort_keys=True)) if out and len(out[1]) > 60 else None
